@@ -194,6 +194,7 @@ class Program:
         self._load()
         self._index()
         self._link()
+        self._method_aliases()
         self._attr_kinds: dict[ClassInfo, dict[str, set[str]]] = {}
 
     # ---- loading
@@ -258,6 +259,20 @@ class Program:
             elif isinstance(st, ast.If) and cls is None:
                 # TYPE_CHECKING blocks etc.: imports only matter, handled by ast.walk
                 pass
+
+    def _method_aliases(self) -> None:
+        """`__ne__ = _negated_eq` / `__getitem__ = __getattr__` in a class body: the name is a method of the class"""
+        for c in self.all_classes():
+            for name, e in list(c.class_attrs.items()):
+                if name in c.methods or not isinstance(e, ast.Name):
+                    continue
+                if e.id in c.methods:
+                    c.methods[name] = c.methods[e.id]
+                    continue
+                r = self.resolve_global(c.module, e.id)
+                if r and r[0] == "func":
+                    fi = FuncInfo(r[1].module, r[1].node, c)
+                    c.methods[name] = fi
 
     def _abs_import(self, m: Module, node: ast.ImportFrom) -> str:
         if not node.level:
